@@ -1460,18 +1460,16 @@ func (w *WorkItem) Decode(d *Decoder) error {
 		return err
 	}
 
-	if length == 0 {
-		return nil
-	}
-
-	importSegments := make([]ImportSpec, length)
-	for i := uint64(0); i < length; i++ {
-		if err = importSegments[i].Decode(d); err != nil {
-			return err
+	if length != 0 {
+		importSegments := make([]ImportSpec, length)
+		for i := uint64(0); i < length; i++ {
+			if err = importSegments[i].Decode(d); err != nil {
+				return err
+			}
 		}
-	}
 
-	w.ImportSegments = importSegments
+		w.ImportSegments = importSegments
+	}
 
 	length, err = d.DecodeLength()
 	if err != nil {
